@@ -54,6 +54,7 @@ Record facts := {
   f_guards : panic_guards;
   f_local_meter : bool;           (* OnRunStart: cacheCtx gas meter = sdk.NewGasMeter(gasLimit) *)
   f_oog_only : bool;              (* HandleOutOfGasPanic converts sdk.ErrorOutOfGas only and re-panics the rest *)
+  f_addr_conv_total : bool;       (* eth.NibiruAddrToEthAddr is total (gethcommon.BytesToAddress: pads / keeps the last 20 bytes) *)
   f_direct_ro : bool;             (* geth fork StaticCall / DelegateCall / CallCode run precompiles with readOnly = true *)
   f_call_inherits_static : bool   (* geth fork EVM.Call hands the interpreter's read-only flag to precompiles *)
 }.
@@ -105,7 +106,7 @@ Definition transfers (k : kind) : bool :=
 Inductive arg :=
 | AAddr
 | AUint (v : Z)
-| AStr (s : list Z) (bech32 tf : bool)
+| AStr (s : list Z) (bech32 : bool) (blen : Z) (tf : bool)   (* blen = bytes of the bech32 payload (sdk accepts 1..255), 0 when not bech32 *)
 | ABytes (json : bool)
 | AFunds (l : list (list Z * Z))
 | AMsgs (l : list (bool * bool * list (list Z * Z))).   (* (bech32 contractAddr, json msgArgs, funds) *)
@@ -170,6 +171,12 @@ Definition int_from_big_panics (v : Z) : bool := two256 <=? Z.abs v.
 (** sdk.NewCoin panics on an invalid denom or a negative amount *)
 Definition new_coin_panics (denom : list Z) (amt : Z) : bool := negb (valid_denom denom) || (amt <? 0).
 
+(** eth.NibiruAddrToEthAddr on an account decoded from a bech32 string (the hex form is tried first):
+    written as the Go slice-to-array conversion gethcommon.Address(addr) it panics for fewer than 20
+    bytes; gethcommon.BytesToAddress never does *)
+Definition addr_conv_panics (F : facts) (s : list Z) (bech32 : bool) (blen : Z) : bool :=
+  negb (f_addr_conv_total F) && (negb (is_hex_address s) && bech32 && (blen <? 20)).
+
 Inductive vres := VErr | VPanic | VPass.
 
 (** collections.StringKeyEncoder.Encode panics on a NUL character *)
@@ -180,39 +187,42 @@ Definition funds_panic (l : list (list Z * Z)) : bool := existsb (fun c => int_f
 (** guard/validator prefix of every handler after the context guard, up to the first keeper call *)
 Definition validate (F : facts) (m : mid) (args : list arg) : vres :=
   match m, args with
-  | FT_sendToBank, [AAddr; AUint _; AStr _ _ _] => VPass
+  | FT_sendToBank, [AAddr; AUint _; AStr _ _ _ _] => VPass
   | FT_balance, [AAddr; AAddr] => VPass
-  | FT_bankBalance, [AAddr; AStr d _ _] => if valid_denom d then VPass else VErr
-  | FT_whoAmI, [AStr who b _] =>
-      (* Validate() then MustAccAddressFromBech32 on the bech32 branch: same predicate, no panic *)
-      if addr_ok who b then VPass else VErr
-  | FT_sendToEvm, [AStr d _ _; AUint _; AStr _ _ _] =>
+  | FT_bankBalance, [AAddr; AStr d _ _ _] => if valid_denom d then VPass else VErr
+  | FT_whoAmI, [AStr who b n _] =>
+      (* Validate() then MustAccAddressFromBech32 on the bech32 branch: same predicate, no panic;
+         then eth.NibiruAddrToEthAddr on the decoded account *)
+      if negb (addr_ok who b) then VErr
+      else if addr_conv_panics F who b n then VPanic else VPass
+  | FT_sendToEvm, [AStr d _ _ _; AUint _; AStr _ _ _ _] =>
       if f_evm_denom_guard F && negb (valid_denom d) then VErr
       else if has_nul d then VPanic           (* FunTokens.Indexes.BankDenom.ExactMatch(ctx, bankDenom) *)
       else VPass
-  | FT_bankMsgSend, [AStr to b _; AStr d _ _; AUint a] =>
+  | FT_bankMsgSend, [AStr to b n _; AStr d _ _ _; AUint a] =>
       if negb (addr_ok to b) then VErr
+      else if addr_conv_panics F to b n then VPanic      (* parseToAddr, bech32 branch *)
       else if f_denom_guard F && negb (valid_denom d) then VErr
       else if f_amount_guard F && (a <? 0) then VErr
       else if int_from_big_panics a then VPanic
       else if new_coin_panics d a then VPanic
       else if a =? 0 then VErr            (* sdk.NewCoins drops the zero coin; MsgSend.ValidateBasic rejects *)
       else VPass
-  | FT_getErc20Address, [AStr d _ tf] =>
+  | FT_getErc20Address, [AStr d _ _ tf] =>
       if f_erc20_nul_guard F && has_nul d then VErr
       else if valid_denom d || tf then (if has_nul d then VPanic else VPass)
       else VErr
-  | W_execute, [AStr _ b _; ABytes j; AFunds l] =>
+  | W_execute, [AStr _ b _ _; ABytes j; AFunds l] =>
       if negb b then VErr else if negb j then VErr else if funds_panic l then VPanic else VPass
-  | W_query, [AStr _ b _; ABytes j] => if negb b then VErr else if negb j then VErr else VPass
-  | W_queryRaw, [AStr _ b _; ABytes _] => if b then VPass else VErr
-  | W_instantiate, [AStr _ _ _; AUint _; ABytes _; AStr _ _ _; AFunds l] =>
+  | W_query, [AStr _ b _ _; ABytes j] => if negb b then VErr else if negb j then VErr else VPass
+  | W_queryRaw, [AStr _ b _ _; ABytes _] => if b then VPass else VErr
+  | W_instantiate, [AStr _ _ _ _; AUint _; ABytes _; AStr _ _ _ _; AFunds l] =>
       if funds_panic l then VPanic else VPass   (* MsgInstantiateContract.ValidateBasic is part of the body oracle *)
   | W_executeMulti, [AMsgs l] =>
       (* per message: bech32, json, then NewIntFromBigInt on every fund before Execute *)
       VPass
-  | O_queryExchangeRate, [AStr p _ _] => if valid_pair p then VPass else VErr
-  | O_chainLinkLatestRoundData, [AStr p _ _] => if valid_pair p then VPass else VErr
+  | O_queryExchangeRate, [AStr p _ _ _] => if valid_pair p then VPass else VErr
+  | O_chainLinkLatestRoundData, [AStr p _ _ _] => if valid_pair p then VPass else VErr
   | M_other, _ => VPass
   | _, _ => VErr                        (* assertNumArgs / ErrArgTypeValidation *)
   end.
@@ -372,7 +382,7 @@ Arguments r_out {St}. Arguments r_left {St}. Arguments r_st {St}.
 
 Definition with_guards (F : facts) (g : panic_guards) : facts :=
   {| f_funtoken := f_funtoken F; f_wasm := f_wasm F; f_oracle := f_oracle F; f_guards := g;
-     f_local_meter := f_local_meter F; f_oog_only := f_oog_only F; f_direct_ro := f_direct_ro F;
+     f_local_meter := f_local_meter F; f_oog_only := f_oog_only F; f_addr_conv_total := f_addr_conv_total F; f_direct_ro := f_direct_ro F;
      f_call_inherits_static := f_call_inherits_static F |}.
 
 Definition all_guards : panic_guards :=
@@ -394,17 +404,22 @@ Definition with_oracle_oog (F : facts) (b : bool) : facts :=
      f_oracle := {| pf_methods := pf_methods (f_oracle F); pf_start_first := pf_start_first (f_oracle F);
                     pf_oog_deferred := b; pf_usegas := pf_usegas (f_oracle F) |};
      f_guards := f_guards F;
-     f_local_meter := f_local_meter F; f_oog_only := f_oog_only F; f_direct_ro := f_direct_ro F;
+     f_local_meter := f_local_meter F; f_oog_only := f_oog_only F; f_addr_conv_total := f_addr_conv_total F; f_direct_ro := f_direct_ro F;
      f_call_inherits_static := f_call_inherits_static F |}.
 
 Definition with_call_inherits (F : facts) (b : bool) : facts :=
   {| f_funtoken := f_funtoken F; f_wasm := f_wasm F; f_oracle := f_oracle F; f_guards := f_guards F;
-     f_local_meter := f_local_meter F; f_oog_only := f_oog_only F; f_direct_ro := f_direct_ro F;
+     f_local_meter := f_local_meter F; f_oog_only := f_oog_only F; f_addr_conv_total := f_addr_conv_total F; f_direct_ro := f_direct_ro F;
      f_call_inherits_static := b |}.
 
 (** a local gas meter that is not capped by the gas left on the contract (seeded change
     "local gas meter oversized": limit = contract.Gas + requiredGas) *)
 Definition with_local_meter (F : facts) (b : bool) : facts :=
   {| f_funtoken := f_funtoken F; f_wasm := f_wasm F; f_oracle := f_oracle F; f_guards := f_guards F;
-     f_local_meter := b; f_oog_only := f_oog_only F; f_direct_ro := f_direct_ro F;
+     f_local_meter := b; f_oog_only := f_oog_only F; f_addr_conv_total := f_addr_conv_total F; f_direct_ro := f_direct_ro F;
      f_call_inherits_static := f_call_inherits_static F |}.
+
+Definition with_addr_conv (F : facts) (b : bool) : facts :=
+  {| f_funtoken := f_funtoken F; f_wasm := f_wasm F; f_oracle := f_oracle F; f_guards := f_guards F;
+     f_local_meter := f_local_meter F; f_oog_only := f_oog_only F; f_addr_conv_total := b;
+     f_direct_ro := f_direct_ro F; f_call_inherits_static := f_call_inherits_static F |}.
